@@ -297,6 +297,9 @@ void EntityManager::applyCommandPack(TemporalStorage& storage, size_t begin, siz
     }
     else {
         auto archetype = getArchetypeOf(entity);
+        if (archetype == nullptr) {
+            return; // the target is not alive any more: its recorded commands are skipped
+        }
         final_mask = archetype->componentMask();
         shared = archetype->sharedComponentInfo();
     }
